@@ -82,6 +82,7 @@ class Scheduler(object):
         self.max_steps = max_steps
         self.horizon = horizon
         self.schedule = []  # name of the thread chosen at each step
+        self.solo = [None, 0, 0]   # [thread, consecutive steps as the only enabled thread, at virtual time]
         self.aborting = False
         self.done_evt = _rt.Event()
         self.failure = None
@@ -297,6 +298,12 @@ class Scheduler(object):
                 self.strategy.give_up(self)
                 return self.strategy.choose(self, enabled)
             if enabled:
+                # (how long one thread has been the ONLY one that can run, without virtual time advancing: a busy loop
+                #  that nothing else in the execution can end)
+                if len(enabled) == 1 and self.solo[0] == enabled[0].name and self.solo[2] == self.now:
+                    self.solo[1] += 1
+                else:
+                    self.solo = [enabled[0].name if len(enabled) == 1 else None, 0, self.now]
                 return self.strategy.choose(self, enabled)
             idle = [r for r in recs if r.state == "blocked" and r.op and r.op != "aborted" and r.op[0] == "idle"]
             if idle:
@@ -1065,7 +1072,7 @@ def enable_line_points(instr=False):
 
 # ====================================================================== running one execution
 class Result(object):
-    __slots__ = ("events", "schedule", "outcome", "blocked", "now", "steps", "failure", "forced", "ops", "extra",
+    __slots__ = ("events", "schedule", "outcome", "blocked", "now", "steps", "failure", "forced", "ops", "extra", "solo",
                  "thread_excs", "locks")
 
     def to_dict(self):
@@ -1105,6 +1112,7 @@ def run_execution(main, strategy, granularity="sync", visible=None, max_steps=50
     r = Result()
     r.events = sched.events
     r.schedule = sched.schedule
+    r.solo = tuple(sched.solo)
     r.outcome = sched.outcome
     r.blocked = sched.blocked_at_end
     r.now = sched.now
